@@ -35,7 +35,11 @@ two precipitate phases on Al-Mg-Si, GeneralSurrogate on Fe-Cr-Ni whose two phase
 Every getter that takes a phase / precPhase argument is exercised with the argument left out AND with every admissible explicit
 value (Al-Mg-Si: both precipitate phases; Fe-Cr-Ni: both phases; one-phase families: the first value by name); the Al-Mg-Si
 and Fe-Cr-Ni cases train only the first, only the second, or both values, and the mech key 'phase' (default / explicit_first /
-explicit_other) says which form failed.  Query HISTORIES (state=query_history): on one shared backend object every public
+explicit_other) says which form failed.  INTERLEAVED phase order (input=interleaved): where two precipitate phases are trained on
+one surrogate (Al-Mg-Si, binary Ni-Al) every trained getter is asked phase A then phase B (B-A, A-B-A, and the impingement A/B,
+growth A/B pattern of a precipitation step) at the same point, point form and batched, default and explicit phase argument; each
+answer must equal THAT phase's training data (original and rebuilt object), and at random points the interleaved answers of the
+original must equal those of an independent rebuilt twin that is only ever asked phase by phase.  Query HISTORIES (state=query_history): on one shared backend object every public
 pass-through getter of an untrained surrogate is called at a matrix-only (dilute, single-phase) point before anything was computed, at
 a two-phase point (successful calculation), again at dilute points with removeCache False / True, after clearCache(), and with default
 arguments - for the phase argument left out and for every explicit value - and compared bit for bit with a mirror backend that
@@ -1286,6 +1290,163 @@ def _check_trained(R, F, s, trained, prec=None, dkey=None, vec_pkw=None, vec_dkw
     return nt
 
 
+def _check_interleaved(R, F, s, trained, obj, monitor, rng, box, twin=None):
+    """two precipitate phases trained on ONE surrogate: the trained getters are queried phase A, phase B (B, A; A, B, A) at the same
+    point - what a multi-phase precipitation step does - and every answer is compared with THAT phase's own training data (1e-6);
+    at random points the interleaved answers of s are compared with those of `twin` (an independent object holding the same models,
+    here the surrogate rebuilt from the file) that is only ever asked phase by phase (1e-9).  Point form and, where the API allows,
+    batched form; phase A with the argument left out and named explicitly."""
+    from kawin.thermo.MultiTherm import CurvatureOutput, _growthRateOutputFromCurvature
+    if len(F.precs) < 2:
+        return 0
+    A, B = F.precs[0], F.precs[1]
+    qa, qb = trained.get(('prec', A)) or [], trained.get(('prec', B)) or []
+    common = [q for q in qa if q in qb]
+    if not common:
+        return 0
+    mech0 = {'family': F.family, 'input': 'interleaved', 'object': obj}
+    n_eval = [0]
+
+    def kwof(p, explicit):
+        return {'precPhase': p} if (p != A or explicit) else {}
+
+    def judge(quantity, label, pred, ref, scale, order, p, tol=TOL_TRAIN, points='training'):
+        e = _err(pred, ref, scale)
+        n_eval[0] += 1
+        R.worst('interleaved_rel_residual', e if np.isfinite(e) else 1e300)
+        R.check(monitor, e <= tol, dict(mech0, quantity=quantity, output=label, order=order, asked='first' if p == A else 'other', points=points,
+                                        cause='shape' if not np.isfinite(e) else 'value'), rel_error=e, predicted=np.asarray(pred), reference=np.asarray(ref))
+
+    def common_points(store):
+        """indices (ia, ib) of training points both phases were trained on"""
+        xa, Ta = _stored_inputs(F, store[A])
+        xb, Tb = _stored_inputs(F, store[B])
+        out = []
+        for i in range(len(Ta)):
+            for j in range(len(Tb)):
+                if Ta[i] == Tb[j] and np.array_equal(np.atleast_1d(xa[i]), np.atleast_1d(xb[j])):
+                    out.append((i, j))
+                    break
+        return xa, Ta, out
+
+    orders = [('AB', [A, B]), ('BA', [B, A]), ('ABA', [A, B, A])]
+    names = {'dc': 'dc', 'mc': 'mc', 'gba': 'gba', 'beta': 'beta', 'c_eq_alpha': 'xEqAlpha', 'c_eq_beta': 'xEqBeta'}
+    Rr = np.array([0.6e-9, 1e-9, 4e-9])
+    gE = 2 * 0.023 * 6.57e-6 / Rr
+    if 'drivingForce' in common:
+        xa, Ta, pairs = common_points(s.drivingForceData)
+        ref = {p: (np.asarray(s.drivingForceData[p]['dg'], dtype=float), np.asarray(s.drivingForceData[p]['xp'], dtype=float)) for p in (A, B)}
+        for k, (i, j) in enumerate(pairs[:6]):
+            oname, order = orders[k % 3]
+            xi = float(xa[i]) if F.binary else np.array(xa[i])
+            for p in order:
+                idx = i if p == A else j
+                r = _query(R, F, s, 'getDrivingForce', (xi, float(Ta[i])), 'drivingForce', 'interleaved', kwof(p, k % 2 == 1), _sel(F.precs, p))
+                if r is not None:
+                    judge('drivingForce', 'dg', r[0], ref[p][0][idx], _colscale(ref[p][0]), oname, p)
+                    judge('drivingForce', 'xp', r[1], ref[p][1][idx], _colscale(ref[p][1]), oname, p)
+        if len(pairs) >= 2:                               # batched: the whole common set, phase after phase after phase
+            ia, ib = [i for i, _ in pairs], [j for _, j in pairs]
+            for p in (A, B, A):
+                idx = ia if p == A else ib
+                r = _query(R, F, s, 'getDrivingForce', (xa[ia], Ta[ia]), 'drivingForce', 'interleaved_batch', kwof(p, True), _sel(F.precs, p))
+                if r is not None:
+                    judge('drivingForce', 'dg', r[0], ref[p][0][idx], _colscale(ref[p][0]), 'ABA_batched', p)
+    if 'interfacialComposition' in common:
+        dA, dB = s.interfacialCompositionData[A], s.interfacialCompositionData[B]
+        Ta, ga = np.ravel(np.asarray(dA['T'], dtype=float)), np.ravel(np.asarray(dA['gExtra'], dtype=float))
+        Tb, gb = np.ravel(np.asarray(dB['T'], dtype=float)), np.ravel(np.asarray(dB['gExtra'], dtype=float))
+        ref = {A: (np.ravel(np.asarray(dA['xpalpha'], dtype=float)), np.ravel(np.asarray(dA['xpbeta'], dtype=float))),
+               B: (np.ravel(np.asarray(dB['xpalpha'], dtype=float)), np.ravel(np.asarray(dB['xpbeta'], dtype=float)))}
+        pairs = []
+        for i in range(len(Ta)):
+            for j in range(len(Tb)):
+                if Ta[i] == Tb[j] and ga[i] == gb[j]:
+                    pairs.append((i, j))
+                    break
+        for k, (i, j) in enumerate(pairs[:6]):
+            oname, order = orders[k % 3]
+            for p in order:
+                idx = i if p == A else j
+                r = _query(R, F, s, 'getInterfacialComposition', (float(Ta[i]), float(ga[i])), 'interfacialComposition', 'interleaved',
+                           kwof(p, k % 2 == 1), _sel(F.precs, p))
+                if r is not None:
+                    judge('interfacialComposition', 'xpalpha', r[0], ref[p][0][idx], _colscale(ref[p][0]), oname, p)
+                    judge('interfacialComposition', 'xpbeta', r[1], ref[p][1][idx], _colscale(ref[p][1]), oname, p)
+        if len(pairs) >= 2:
+            ia, ib = [i for i, _ in pairs], [j for _, j in pairs]
+            for p in (B, A, B):
+                idx = ia if p == A else ib
+                r = _query(R, F, s, 'getInterfacialComposition', (Ta[ia], ga[ia]), 'interfacialComposition', 'interleaved_batch', kwof(p, True),
+                           _sel(F.precs, p))
+                if r is not None:
+                    judge('interfacialComposition', 'xpalpha', r[0], ref[p][0][idx], _colscale(ref[p][0]), 'BAB_batched', p)
+    if 'curvature' in common:
+        xa, Ta, pairs = common_points(s.curvatureData)
+        ref = {p: {f: np.asarray(s.curvatureData[p][k], dtype=float) for f, k in names.items()} for p in (A, B)}
+        for k, (i, j) in enumerate(pairs[:9]):
+            oname, order = orders[k % 3]
+            xi, Ti = np.array(xa[i]), float(Ta[i])
+            getter = ['curvatureFactor', 'impingementFactor', 'getGrowthAndInterfacialComposition'][(k // 3) % 3]
+            for p in order:
+                idx = i if p == A else j
+                kw, lab = kwof(p, k % 2 == 1), _sel(F.precs, p)
+                if getter == 'curvatureFactor':
+                    c = _query(R, F, s, getter, (xi, Ti), 'curvature', 'interleaved', kw, lab)
+                    if c is not None:
+                        for f in names:
+                            judge('curvature', f, getattr(c, f), ref[p][f][idx], _colscale(ref[p][f]), oname, p)
+                elif getter == 'impingementFactor':
+                    b = _query(R, F, s, getter, (xi, Ti), 'curvature', 'interleaved', kw, lab)
+                    if b is not None:
+                        judge('impingement', 'beta', b, ref[p]['beta'][idx], _colscale(ref[p]['beta']), oname, p)
+                else:
+                    stored = CurvatureOutput(**{f: ref[p][f][idx] for f in names})
+                    exp = _growthRateOutputFromCurvature(xi, 800.0, Rr, gE, stored)
+                    got = _query(R, F, s, getter, (xi, Ti, 800.0, Rr, gE), 'curvature', 'interleaved', kw, lab)
+                    if got is not None:
+                        for f in exp._fields:
+                            ev = np.asarray(getattr(exp, f), dtype=float)
+                            judge('growth', f, getattr(got, f), ev, np.max(np.abs(ev)), oname, p)
+        # mixed getters at one point, as a precipitation step does: impingement A, impingement B, growth A, growth B
+        for (i, j) in pairs[:3]:
+            xi, Ti = np.array(xa[i]), float(Ta[i])
+            for getter in ('impingementFactor', 'getGrowthAndInterfacialComposition'):
+                for p in (A, B):
+                    idx = i if p == A else j
+                    if getter == 'impingementFactor':
+                        b = _query(R, F, s, getter, (xi, Ti), 'curvature', 'interleaved', kwof(p, True), _sel(F.precs, p))
+                        if b is not None:
+                            judge('impingement', 'beta', b, ref[p]['beta'][idx], _colscale(ref[p]['beta']), 'step_ABAB', p)
+                    else:
+                        stored = CurvatureOutput(**{f: ref[p][f][idx] for f in names})
+                        exp = _growthRateOutputFromCurvature(xi, 800.0, Rr, gE, stored)
+                        got = _query(R, F, s, getter, (xi, Ti, 800.0, Rr, gE), 'curvature', 'interleaved', kwof(p, True), _sel(F.precs, p))
+                        if got is not None:
+                            judge('growth', 'growth_rate', got.growth_rate, np.asarray(exp.growth_rate, dtype=float),
+                                  np.max(np.abs(np.asarray(exp.growth_rate, dtype=float))), 'step_ABAB', p)
+    # random points: interleaved answers of s vs. a twin object that is asked phase by phase
+    if twin is not None:
+        xr, Tr, gr = F.random_points(rng, box, 4)
+        seq = {p: [] for p in (A, B)}
+        for p in (A, B):                                 # twin: all points of A, then all points of B
+            for m in range(len(Tr)):
+                xi = float(xr[m]) if F.binary else np.array(xr[m])
+                seq[p].append(_predictions(core.CaseResult({}), F, twin, common, (xi, float(Tr[m]), None if gr is None else float(gr[m])), 'point',
+                                           pkw={'precPhase': p}, plab=_sel(F.precs, p)))
+        for m in range(len(Tr)):
+            xi = float(xr[m]) if F.binary else np.array(xr[m])
+            for p in orders[m % 3][1]:
+                got = _predictions(R, F, s, common, (xi, float(Tr[m]), None if gr is None else float(gr[m])), 'interleaved', pkw=kwof(p, m % 2 == 0),
+                                   plab=_sel(F.precs, p))
+                for label, a in got.items():
+                    if label in seq[p][m]:
+                        b = seq[p][m][label]
+                        judge(label.split('#')[0].split('.')[0], label.split('#')[0], a, b, np.max(np.abs(b)) if b.size else 0.0, orders[m % 3][0], p,
+                              tol=TOL_JSON, points='random_vs_twin')
+    return n_eval[0]
+
+
 def _stored_inputs(F, d):
     x = np.asarray(d['x'], dtype=float)
     return (np.ravel(x) if F.binary else x), np.ravel(np.asarray(d['T'], dtype=float))
@@ -1374,6 +1535,8 @@ def _run_surrogate(case, R):
         for q in nt:
             nt_all.append((kind, ph, q))
             R.add_nontrivial(key0 + '-trained-%s-%s' % (q, _sel(F.precs if kind == 'prec' else dnames, ph)))
+    if _check_interleaved(R, F, s, trained, 'original', 'c20.trained_reproduces', rng, box) > 0:
+        R.add_nontrivial(key0 + '-interleaved-original')
     R.info['training_points'] = {'%s:%s' % (k, p): int(len(np.ravel(np.asarray(st[p]['T'], dtype=float))))
                                  for k, st in (('drivingForce', s.drivingForceData), ('diffusivity', s.diffusivityData),
                                                ('curvature', getattr(s, 'curvatureData', {})),
@@ -1446,6 +1609,19 @@ def _run_surrogate(case, R):
                     _check_trained(R, F, s2, qs, dkey=ph, vec_dkw={'phase': ph}, dnames=dnames)
                 elif qs and kind == 'prec':
                     _check_trained(R, F, s2, qs, prec=ph, vec_pkw={'precPhase': ph}, dnames=dnames)
+            # interleaved phase order on the rebuilt object (vs. the training data) and on the original vs. the rebuilt twin
+            if _check_interleaved(R, F, s2, trained, 'rebuilt', 'c20.json_rebuild', rng, box) > 0:
+                R.add_nontrivial(key0 + '-interleaved-rebuilt')
+            s3 = F.surrogate(F.therm())
+            try:
+                s.toJson(fn)
+                s3.fromJson(fn)
+            except Exception:
+                s3 = None
+            finally:
+                _rm(fn)
+            if s3 is not None:
+                _check_interleaved(R, F, s, {k: v for k, v in trained.items()}, 'original_vs_twin', 'c20.json_rebuild', rng, box, twin=s3)
             for kind, ph, q in nt_all:
                 R.add_nontrivial(key0 + '-json-%s-%s' % (q, _sel(F.precs if kind == 'prec' else dnames, ph)))
 
